@@ -64,6 +64,7 @@ class Result:
         self.delivered = [[] for _ in range(n)]      # per connection: (feed step, view or exception)
         self.after = []                              # per feed step: (connection, chars fed so far to it, deliveries of it so far)
         self.errors = []
+        self.shadow = []                             # per feed step: (connection, deliveries of a bare Buffer fed the same pieces, its retained length, the handler's retained length)
         self.foreign = []                            # deliveries attributed to a connection that does not exist
 
 
@@ -119,6 +120,14 @@ async def _run(kind, streams, schedule, eof_order, for_blobs):
                         v = ("unreadable", repr(e))
                     res.delivered[i].append((step[0], v))
 
+        # a bare Buffer per connection with the threshold that kind of connection is meant to have, fed the same pieces
+        from indi.transport import Buffer
+        shadows, shadow_counts = [], [0] * n
+        for i, k in enumerate(kinds):
+            b = Buffer()
+            if k == "client-tcp" and for_blobs and for_blobs[i]:
+                b.max_buffer_size_before_frontal_cleanup = None
+            shadows.append(b)
         pos = [0] * n
         fed = [0] * n
         for ci in schedule:
@@ -137,6 +146,15 @@ async def _run(kind, streams, schedule, eof_order, for_blobs):
                 await asyncio.sleep(0)
             collect()
             res.after.append((ci, fed[ci], len(res.delivered[ci])))
+            got = []
+            shadows[ci].append(piece)
+            try:
+                shadows[ci].process(got.append)
+            except BaseException as e:          # the bare Buffer's own trouble is not this monitor's subject
+                res.shadow.append((ci, None, None, None))
+            else:
+                shadow_counts[ci] += len(got)
+                res.shadow.append((ci, shadow_counts[ci], shadows[ci].data_len, getattr(getattr(handlers[ci], "buffer", None), "data_len", None)))
             for i, t in enumerate(tasks):
                 if t.done():
                     exc = t.exception() if not t.cancelled() else None
@@ -183,3 +201,18 @@ def interleavings(rng, lengths, how):
     pool = [i for i, n in enumerate(lengths) for _ in range(n)]
     rng.shuffle(pool)
     return pool
+
+
+def differential_problems(res):
+    """[(feed step, connection, what)] where a handler did not behave like a bare Buffer fed the same pieces."""
+    out = []
+    for step, ((ci, fed, ndel), (ci2, sdel, sret, rret)) in enumerate(zip(res.after, res.shadow)):
+        if sdel is None:
+            continue
+        if ndel != sdel:
+            out.append((step, ci, f"{'fewer' if ndel < sdel else 'more'}-deliveries-than-a-bare-buffer",
+                        f"after feed step {step} connection {ci} had delivered {ndel} messages, a bare Buffer fed the same pieces {sdel}"))
+        elif rret is not None and rret > sret:
+            out.append((step, ci, "retains-more-than-a-bare-buffer",
+                        f"after feed step {step} connection {ci} retains {rret} characters, a bare Buffer fed the same pieces {sret}"))
+    return out
